@@ -168,6 +168,105 @@ pub fn decrypt<const T: usize, const C: usize>(w: u32, key: &[u8], block: &mut [
     word_to_le(w, b, &mut block[u..2 * u]);
 }
 
+/// The same algorithm (sections 4.1-4.3, same text as above) on the machine word of width w, for w = 8, 16, 32, 64, 128:
+/// `+` is `wrapping_add` (addition mod 2^w), `x <<< y` is `rotate_left` by y mod w.  These instances exist because the
+/// real code works on native words; against them the verifier sees the same operations and proves equality
+/// structurally.  `tests::native_instances_agree` ties them to the width-parametric functions above.
+macro_rules! native_rc5 {
+    ($m:ident, $ty:ty, $w:expr) => {
+        pub mod $m {
+            pub const W: u32 = $w;
+            pub const U: usize = $w / 8;
+            pub const P: $ty = super::p_w($w) as $ty;
+            pub const Q: $ty = super::q_w($w) as $ty;
+            #[inline(always)]
+            pub fn rotl(x: $ty, y: $ty) -> $ty { x.rotate_left((y % ($w as $ty)) as u32) }
+            #[inline(always)]
+            pub fn rotr(x: $ty, y: $ty) -> $ty { x.rotate_right((y % ($w as $ty)) as u32) }
+            pub fn key_to_words<const C: usize>(key: &[u8]) -> [$ty; C] {
+                assert!(key.len() <= 255 && C == super::key_words($w, key.len()));
+                let mut l = [0 as $ty; C];
+                let mut i = key.len();
+                while i > 0 {
+                    i -= 1;
+                    l[i / U] = rotl(l[i / U], 8).wrapping_add(key[i] as $ty);
+                }
+                l
+            }
+            pub fn init_s<const T: usize>() -> [$ty; T] {
+                assert!(T >= 2 && T % 2 == 0);
+                let mut s = [0 as $ty; T];
+                s[0] = P;
+                let mut i = 1;
+                while i < T {
+                    s[i] = s[i - 1].wrapping_add(Q);
+                    i += 1;
+                }
+                s
+            }
+            pub fn mix<const T: usize, const C: usize>(mut s: [$ty; T], mut l: [$ty; C]) -> [$ty; T] {
+                let (mut i, mut j) = (0usize, 0usize);
+                let (mut a, mut b): ($ty, $ty) = (0, 0);
+                let n = 3 * if T > C { T } else { C };
+                let mut k = 0;
+                while k < n {
+                    s[i] = rotl(s[i].wrapping_add(a).wrapping_add(b), 3);
+                    a = s[i];
+                    l[j] = rotl(l[j].wrapping_add(a).wrapping_add(b), a.wrapping_add(b));
+                    b = l[j];
+                    i = (i + 1) % T;
+                    j = (j + 1) % C;
+                    k += 1;
+                }
+                s
+            }
+            pub fn key_expansion<const T: usize, const C: usize>(key: &[u8]) -> [$ty; T] {
+                mix::<T, C>(init_s::<T>(), key_to_words::<C>(key))
+            }
+            pub fn encrypt_words<const T: usize>(s: &[$ty; T], a: $ty, b: $ty) -> ($ty, $ty) {
+                let r = T / 2 - 1;
+                let mut a = a.wrapping_add(s[0]);
+                let mut b = b.wrapping_add(s[1]);
+                let mut i = 1;
+                while i <= r {
+                    a = rotl(a ^ b, b).wrapping_add(s[2 * i]);
+                    b = rotl(b ^ a, a).wrapping_add(s[2 * i + 1]);
+                    i += 1;
+                }
+                (a, b)
+            }
+            pub fn decrypt_words<const T: usize>(s: &[$ty; T], a: $ty, b: $ty) -> ($ty, $ty) {
+                let r = T / 2 - 1;
+                let (mut a, mut b) = (a, b);
+                let mut i = r;
+                while i >= 1 {
+                    b = rotr(b.wrapping_sub(s[2 * i + 1]), a) ^ a;
+                    a = rotr(a.wrapping_sub(s[2 * i]), b) ^ b;
+                    i -= 1;
+                }
+                b = b.wrapping_sub(s[1]);
+                a = a.wrapping_sub(s[0]);
+                (a, b)
+            }
+            /// little-endian word
+            pub fn word_from_le(bytes: &[u8]) -> $ty {
+                let mut x: $ty = 0;
+                let mut i = U;
+                while i > 0 {
+                    i -= 1;
+                    x = if U == 1 { bytes[i] as $ty } else { (x << 8) | bytes[i] as $ty };
+                }
+                x
+            }
+        }
+    };
+}
+native_rc5!(w8, u8, 8);
+native_rc5!(w16, u16, 16);
+native_rc5!(w32, u32, 32);
+native_rc5!(w64, u64, 64);
+native_rc5!(w128, u128, 128);
+
 #[cfg(test)]
 mod tests {
     use super::*;
@@ -290,6 +389,47 @@ mod tests {
         run::<58, 2, 32, 32>(128, "000102030405060708090A0B0C0D0E0F101112131415161718191A1B1C1D1E1F",
             "000102030405060708090A0B0C0D0E0F101112131415161718191A1B1C1D1E1F",
             "ECA5910921A4F4CFDD7AD7AD20A1FCBA068EC7A7CD752D68FE914B7FE180B440");
+    }
+
+    /// the native-word instances are the width-parametric functions (vectors + pseudo-random samples, all five widths)
+    #[test]
+    fn native_instances_agree() {
+        macro_rules! agree {
+            ($m:ident, $ty:ty, $w:expr, $t:expr, $c:expr, $b:expr) => {{
+                let mut seed = 0x9e3779b97f4a7c15u64;
+                let mut next = move || { seed ^= seed << 13; seed ^= seed >> 7; seed ^= seed << 17; seed };
+                for _ in 0..50 {
+                    let mut key = [0u8; $b];
+                    for k in key.iter_mut() { *k = next() as u8; }
+                    let g = key_expansion::<$t, $c>($w, &key);
+                    let n = $m::key_expansion::<$t, $c>(&key);
+                    for i in 0..$t { assert_eq!(g[i], n[i] as u128); }
+                    let (a, b) = (((next() as u128) << 64 | next() as u128) & mask($w), ((next() as u128) << 64 | next() as u128) & mask($w));
+                    let (ea, eb) = encrypt_words::<$t>($w, &g, a, b);
+                    let (na, nb) = $m::encrypt_words::<$t>(&n, a as $ty, b as $ty);
+                    assert_eq!((ea, eb), (na as u128, nb as u128));
+                    let (da, db) = decrypt_words::<$t>($w, &g, a, b);
+                    let (na, nb) = $m::decrypt_words::<$t>(&n, a as $ty, b as $ty);
+                    assert_eq!((da, db), (na as u128, nb as u128));
+                    assert_eq!($m::rotl(a as $ty, b as $ty) as u128, rotl($w, a, b));
+                    assert_eq!($m::rotr(a as $ty, b as $ty) as u128, rotr($w, a, b));
+                }
+                assert_eq!($m::P as u128, p_w($w));
+                assert_eq!($m::Q as u128, q_w($w));
+            }};
+        }
+        agree!(w8, u8, 8, 26, 4, 4);
+        agree!(w8, u8, 8, 26, 255, 255);
+        agree!(w16, u16, 16, 34, 4, 8);
+        agree!(w16, u16, 16, 26, 2, 3);
+        agree!(w32, u32, 32, 26, 4, 16);
+        agree!(w32, u32, 32, 512, 4, 16);
+        agree!(w32, u32, 32, 26, 2, 7);
+        agree!(w32, u32, 32, 26, 1, 0);
+        agree!(w64, u64, 64, 50, 3, 24);
+        agree!(w64, u64, 64, 26, 2, 9);
+        agree!(w128, u128, 128, 58, 2, 32);
+        agree!(w128, u128, 128, 26, 2, 17);
     }
 
     /// b = 0 is a legal key length (c = 1, L[0] = 0); r = 0 is legal (only the two additions); round trips
